@@ -315,7 +315,7 @@ package schema
 //@   modifies k.index[*], k.Data, k.Data[*]
 //@   ensures panics <==> (exists q indexKey :: q.Key == v.Key && q.IsShortcut == v.IsShortcut && old(dom(k.index, q)))
 //@   ensures panics ==> errWF(pv)
-//@   ensures normal ==> keysWF(k) && len(k.Data) == old(len(k.Data)) + 1 && k.Data[old(len(k.Data))].Key == v.Key && k.Data[old(len(k.Data))].IsShortcut == v.IsShortcut
+//@   ensures normal ==> keysWF(k) && len(k.Data) == old(len(k.Data)) + 1 && k.Data[old(len(k.Data))] == v
 //@   ensures normal ==> (forall j :: 0 <= j && j < old(len(k.Data)) ==> k.Data[j] == old(k.Data[j]))
 //@   ensures normal && old(keysComplete(k)) ==> keysComplete(k)
 
@@ -350,3 +350,138 @@ package schema
 //@   props C09 C01
 //@   pure
 //@   ensures result == n.keys
+
+// ---- C06/C01: the node tree mirrors the lexeme stream: which lexeme creates which
+// kind of node, where a node ends, who its parent is ----
+//@ func newBaseNode(lex)
+//@   props C06 C01
+//@   nopanic
+//@   ensures tag(result.parent) == 0 && result.jsonType == json.TypeUndefined && result.schemaLexEvent == lex && fresh(result.constraints)
+//@ func (*baseNode).setJsonType(t)
+//@   props C06 C01
+//@   requires n != nil
+//@   nopanic
+//@   modifies n.jsonType
+//@   ensures n.jsonType == t
+//@ func (*baseNode).SetParent(parent)
+//@   props C06
+//@   requires n != nil
+//@   nopanic
+//@   modifies n.parent
+//@   ensures n.parent == parent
+//@ func newLiteralNode(lex)
+//@   props C06 C01
+//@   nopanic
+//@   ensures fresh(result) && tag(result.parent) == 0 && result.jsonType == json.TypeUndefined && result.schemaLexEvent == lex && fresh(result.constraints)
+//@ func newArrayNode(lex)
+//@   props C06 C01
+//@   nopanic
+//@   ensures fresh(result) && tag(result.parent) == 0 && result.jsonType == json.TypeArray && result.schemaLexEvent == lex && fresh(result.constraints) && len(result.children) == 0 && fresh(result.children) && !result.waitingForChild
+//@ func newObjectNodeKeys()
+//@   props C06 C01
+//@   nopanic
+//@   ensures fresh(result) && len(result.Data) == 0 && fresh(result.Data) && fresh(result.index) && keysWF(result) && keysComplete(result) && (forall q indexKey :: !dom(result.index, q))
+//@ func newObjectNode(lex)
+//@   props C06 C01
+//@   nopanic
+//@   ensures fresh(result) && tag(result.parent) == 0 && result.jsonType == json.TypeObject && result.schemaLexEvent == lex && fresh(result.constraints) && len(result.children) == 0 && fresh(result.children) && !result.waitingForChild
+//@   ensures fresh(result.keys) && keysWF(result.keys) && keysComplete(result.keys) && len(result.keys.Data) == 0
+//@ func NewMixedValueNode(lex)
+//@   props C06 C01
+//@   nopanic
+//@   ensures fresh(result) && tag(result.parent) == 0 && result.jsonType == json.TypeMixed && result.schemaLexEvent == lex && fresh(result.constraints)
+//@ func NewNode(lex)
+//@   props C06 C01
+//@   maypanic
+//@   ensures panics <==> !(lex.lexEventType == lexeme.LiteralBegin || lex.lexEventType == lexeme.ObjectBegin || lex.lexEventType == lexeme.ArrayBegin || lex.lexEventType == lexeme.MixedValueBegin)
+//@   ensures normal ==> ival(result) != 0 && fresh(ival(result)) && tag(parentOf(result)) == 0
+//@   ensures normal && lex.lexEventType == lexeme.LiteralBegin ==> typeis(result, *LiteralNode) && unbox(result, *LiteralNode).schemaLexEvent == lex
+//@   ensures normal && lex.lexEventType == lexeme.ObjectBegin ==> typeis(result, *ObjectNode) && unbox(result, *ObjectNode).schemaLexEvent == lex && len(unbox(result, *ObjectNode).children) == 0 && keysWF(unbox(result, *ObjectNode).keys) && len(unbox(result, *ObjectNode).keys.Data) == 0 && !unbox(result, *ObjectNode).waitingForChild
+//@   ensures normal && lex.lexEventType == lexeme.ArrayBegin ==> typeis(result, *ArrayNode) && unbox(result, *ArrayNode).schemaLexEvent == lex && len(unbox(result, *ArrayNode).children) == 0 && !unbox(result, *ArrayNode).waitingForChild
+//@   ensures normal && lex.lexEventType == lexeme.MixedValueBegin ==> typeis(result, *MixedValueNode) && unbox(result, *MixedValueNode).schemaLexEvent == lex
+//@   ensures panics ==> typeis(pv, string)
+
+//@ interface Node.SetParent(self, parent)
+//@   requires isNode(self)
+//@   nopanic
+//@   modifies unbox(self, *LiteralNode).baseNode.parent, unbox(self, *ObjectNode).baseNode.parent, unbox(self, *ArrayNode).baseNode.parent, unbox(self, *MixedNode).baseNode.parent, unbox(self, *MixedValueNode).baseNode.parent
+//@   ensures parentOf(self) == parent
+
+// a literal node ends at its LiteralEnd lexeme, which also fixes its JSON kind
+//@ func (*LiteralNode).Grow(lex)
+//@   props C06 C01
+//@   requires n != nil && lexWF(lex) && lex.end + 1 - lex.begin <= 1000000000000
+//@   maypanic
+//@   modifies n.baseNode.jsonType, n.baseNode.schemaLexEvent.file, n.baseNode.schemaLexEvent.lexEventType, n.baseNode.schemaLexEvent.begin, n.baseNode.schemaLexEvent.end
+//@   ensures lex.lexEventType == lexeme.LiteralBegin ==> normal && result0 == box(n) && !result1 && n.schemaLexEvent == old(n.schemaLexEvent) && n.jsonType == old(n.jsonType)
+//@   ensures lex.lexEventType != lexeme.LiteralBegin && lex.lexEventType != lexeme.LiteralEnd ==> panics
+//@   ensures lex.lexEventType == lexeme.LiteralEnd ==> (panics <==> old(litKind(lexBytes(lex))) == 0)
+//@   ensures lex.lexEventType == lexeme.LiteralEnd && normal ==> result0 == old(n.parent) && !result1 && n.schemaLexEvent == lex && n.jsonType == old(litKind(lexBytes(lex)))
+//@   ensures panics ==> typeis(pv, string)
+
+// an array node: after ArrayItemBegin the next lexeme opens the item (a new child,
+// appended in order, whose parent is this node); ArrayEnd returns to the parent
+//@ func (*ArrayNode).Grow(lex)
+//@   props C06 C01
+//@   requires n != nil
+//@   maypanic
+//@   modifies n.waitingForChild, n.children, n.children[*]
+//@   ensures old(n.waitingForChild) ==> (panics <==> !(lex.lexEventType == lexeme.LiteralBegin || lex.lexEventType == lexeme.ObjectBegin || lex.lexEventType == lexeme.ArrayBegin || lex.lexEventType == lexeme.MixedValueBegin))
+//@   ensures old(n.waitingForChild) && normal ==> result1 && !n.waitingForChild && len(n.children) == old(len(n.children)) + 1 && n.children[old(len(n.children))] == result0
+//@           && fresh(ival(result0)) && parentOf(result0) == box(n) && (forall j :: 0 <= j && j < old(len(n.children)) ==> n.children[j] == old(n.children[j]))
+//@   ensures old(n.waitingForChild) && normal ==> (lex.lexEventType == lexeme.LiteralBegin ==> typeis(result0, *LiteralNode)) && (lex.lexEventType == lexeme.ObjectBegin ==> typeis(result0, *ObjectNode))
+//@           && (lex.lexEventType == lexeme.ArrayBegin ==> typeis(result0, *ArrayNode)) && (lex.lexEventType == lexeme.MixedValueBegin ==> typeis(result0, *MixedValueNode))
+//@   ensures !old(n.waitingForChild) ==> (panics <==> !(lex.lexEventType == lexeme.ArrayBegin || lex.lexEventType == lexeme.ArrayItemEnd || lex.lexEventType == lexeme.ArrayItemBegin || lex.lexEventType == lexeme.ArrayEnd))
+//@   ensures !old(n.waitingForChild) && normal ==> !result1 && len(n.children) == old(len(n.children)) && n.waitingForChild == (lex.lexEventType == lexeme.ArrayItemBegin)
+//@           && result0 == (lex.lexEventType == lexeme.ArrayEnd ? old(n.parent) : box(n))
+
+// an object node: a key lexeme (plain or shortcut) registers the key under its DECODED
+// spelling for the next child; after ObjectValueBegin the next lexeme opens that child
+// (appended in order, parent = this node); ObjectEnd returns to the parent
+//@ func (*ObjectNode).addKey(key, isShortcut, lex)
+//@   props C06 C01
+//@   requires n != nil && keysWF(n.keys) && len(n.keys.Data) == len(n.children)
+//@   maypanic
+//@   modifies n.keys.index[*], n.keys.Data, n.keys.Data[*]
+//@   ensures panics <==> (exists q indexKey :: q.Key == key && q.IsShortcut == isShortcut && old(dom(n.keys.index, q)))
+//@   ensures panics ==> errWF(pv)
+//@   ensures normal ==> keysWF(n.keys) && len(n.keys.Data) == old(len(n.keys.Data)) + 1 && n.keys.Data[old(len(n.keys.Data))].Key == key && n.keys.Data[old(len(n.keys.Data))].IsShortcut == isShortcut && n.keys.Data[old(len(n.keys.Data))].Lex == lex
+//@   ensures normal ==> (forall j :: 0 <= j && j < old(len(n.keys.Data)) ==> n.keys.Data[j] == old(n.keys.Data[j]))
+//@   ensures normal && old(keysComplete(n.keys)) ==> keysComplete(n.keys)
+//@ func (*ObjectNode).Grow(lex)
+//@   props C06 C01 C13
+//@   requires n != nil && keysWF(n.keys) && lexWF(lex) && lex.end + 1 - lex.begin <= 1000000000000
+//@   requires n.keys.Data.$arr != n.children.$arr
+//@   assumes lex.lexEventType == lexeme.KeyShortcutEnd || lex.lexEventType == lexeme.ObjectKeyEnd ==> !n.waitingForChild && len(n.keys.Data) == len(n.children)
+//@   maypanic
+//@   modifies n.waitingForChild, n.children, n.children[*], n.keys.index[*], n.keys.Data, n.keys.Data[*]
+//@   ensures old(n.waitingForChild) ==> (panics <==> !(lex.lexEventType == lexeme.LiteralBegin || lex.lexEventType == lexeme.ObjectBegin || lex.lexEventType == lexeme.ArrayBegin || lex.lexEventType == lexeme.MixedValueBegin))
+//@   ensures old(n.waitingForChild) && normal ==> result1 && !n.waitingForChild && len(n.children) == old(len(n.children)) + 1 && n.children[old(len(n.children))] == result0
+//@           && fresh(ival(result0)) && parentOf(result0) == box(n) && (forall j :: 0 <= j && j < old(len(n.children)) ==> n.children[j] == old(n.children[j])) && len(n.keys.Data) == old(len(n.keys.Data))
+//@   ensures old(n.waitingForChild) && normal ==> (lex.lexEventType == lexeme.LiteralBegin ==> typeis(result0, *LiteralNode)) && (lex.lexEventType == lexeme.ObjectBegin ==> typeis(result0, *ObjectNode))
+//@           && (lex.lexEventType == lexeme.ArrayBegin ==> typeis(result0, *ArrayNode)) && (lex.lexEventType == lexeme.MixedValueBegin ==> typeis(result0, *MixedValueNode))
+//@   ensures !old(n.waitingForChild) && !(lex.lexEventType == lexeme.ObjectBegin || lex.lexEventType == lexeme.ObjectKeyBegin || lex.lexEventType == lexeme.ObjectValueEnd || lex.lexEventType == lexeme.KeyShortcutEnd
+//@             || lex.lexEventType == lexeme.ObjectKeyEnd || lex.lexEventType == lexeme.ObjectValueBegin || lex.lexEventType == lexeme.ObjectEnd) ==> panics
+//@   ensures !old(n.waitingForChild) && (lex.lexEventType == lexeme.ObjectBegin || lex.lexEventType == lexeme.ObjectKeyBegin || lex.lexEventType == lexeme.ObjectValueEnd || lex.lexEventType == lexeme.ObjectValueBegin || lex.lexEventType == lexeme.ObjectEnd)
+//@           ==> normal && !result1 && len(n.children) == old(len(n.children)) && len(n.keys.Data) == old(len(n.keys.Data)) && n.waitingForChild == (lex.lexEventType == lexeme.ObjectValueBegin)
+//@               && result0 == (lex.lexEventType == lexeme.ObjectEnd ? old(n.parent) : box(n))
+//@   ensures !old(n.waitingForChild) && (lex.lexEventType == lexeme.KeyShortcutEnd || lex.lexEventType == lexeme.ObjectKeyEnd) && normal
+//@           ==> !result1 && result0 == box(n) && !n.waitingForChild && len(n.children) == old(len(n.children)) && keysWF(n.keys) && len(n.keys.Data) == old(len(n.keys.Data)) + 1
+//@               && spellsDecoded(n.keys.Data[old(len(n.keys.Data))].Key, old(lexBytes(lex))) && n.keys.Data[old(len(n.keys.Data))].IsShortcut == old(userTypeName(lexBytes(lex))) && n.keys.Data[old(len(n.keys.Data))].Index == old(len(n.children))
+//@               && (forall j :: 0 <= j && j < old(len(n.keys.Data)) ==> n.keys.Data[j] == old(n.keys.Data[j]))
+
+// (the per-class Grow methods above are the verified statements; through the interface
+// only "may change the tree" is used)
+//@ interface Node.Grow(self, lex)
+//@   requires isNode(self)
+//@   maypanic
+//@   modifies *
+//@   keeps loader.nodeLoader
+//@   ensures panics && (typeis(pv, errors.Errorf) || typeis(pv, errors.ErrorCode)) ==> errWF(pv)
+//@   ensures panics ==> !typeis(pv, *errors.Errorf) && !typeis(pv, *errors.ErrorCode) && !typeis(pv, *errors.DocumentError)
+//@ func (*Schema).SetRootNode(node)
+//@   props C06
+//@   requires s != nil
+//@   nopanic
+//@   modifies s.rootNode
+//@   ensures s.rootNode == node
